@@ -15,7 +15,7 @@ def main():
     seed, wt = sys.argv[1], sys.argv[2]
     meta = json.load(open(os.path.join(seed, "meta.json")))
     demo = meta["demo_cmd"].split("#")[0].strip()
-    demo = demo.replace("/tmp/seedwt/%s" % meta["property"], wt)
+    demo = demo.replace("/tmp/seedwt/%s" % meta["property"], wt).replace("/tmp/seedwt2/%s" % meta["property"], wt)
     sh("git checkout -- . && git clean -fdq -e target", wt)
     res = {}
     rc, out = sh("git apply %s" % os.path.join(seed, "patch.diff"), wt)
